@@ -35,7 +35,7 @@ TRUSTED = ["zoneinfo.ZoneInfo and datetime.date are the specification side of th
            "the theorems assume wf_zone of the table",
            "the hand-modelled bodies (set/at/second..day/week/next/previous) are pinned textually by tools/vlib/gens/g80_start_end.py"]
 ASSUMPTIONS = ["a call of start_of/end_of that runs longer than 1.5 s is classified as non-terminating (the model runs out of fuel exactly there)",
-               "pendulum.week_starts_at/week_ends_at are process-global: the runner sets them per case and restores the defaults"]
+               "pendulum.week_starts_at/week_ends_at are process-global: the runner sets them per case (as the WeekDay member or as the plain int it equals, by case parity) and restores the defaults"]
 VM_SUBSET = 60
 
 UNITS = ["second", "minute", "hour", "day", "week", "month", "year", "decade", "century"]
@@ -502,8 +502,10 @@ def impl_run(cases):
                 continue
             if fn == "date":
                 n, u, ws, we = a
-                pendulum.week_starts_at(pendulum.WeekDay(ws))
-                pendulum.week_ends_at(pendulum.WeekDay(we))
+                # the configuration value is handed over as the enum member or as the plain int it equals (both are accepted), by case parity
+                _wk = pendulum.WeekDay if (n + ws) % 2 == 0 else int
+                pendulum.week_starts_at(_wk(ws))
+                pendulum.week_ends_at(_wk(we))
                 d0 = _dt.date.fromordinal(n)
                 x = pendulum.Date(d0.year, d0.month, d0.day)
                 res = [0]
@@ -549,8 +551,9 @@ def impl_run(cases):
                 out.append(res)
                 continue
             spec, W, f, fnat, prov, u, ws, we = a
-            pendulum.week_starts_at(pendulum.WeekDay(ws))
-            pendulum.week_ends_at(pendulum.WeekDay(we))
+            _wk = pendulum.WeekDay if (W // 1000000 + ws) % 2 == 0 else int
+            pendulum.week_starts_at(_wk(ws))
+            pendulum.week_ends_at(_wk(we))
             x, tzname, tzobj = _build(pendulum, spec, W, f, prov)
             if T.wall_of(x) != W or x.fold != f:
                 out.append([7, 5, T.wall_of(x), x.fold])      # the provenance did not produce the intended instance
